@@ -147,6 +147,23 @@ def explore(item):
                                                                       glob_args={'recursive': True})})
         for d in D[:nd]:
             mm.model_param_defs.add(d, 'declared %s' % d.label)
+        # by selector: while the outer load is building its models, user code (a processor of a match rule)
+        # loads another text with the same metamodel and NO parameters — the outer models keep theirs
+        # (only without a metamodel-wide repository: with one, the nested load meets the unfinished outer model
+        # in that repository and textX fails with AttributeError on the marker resolver — not a C27 matter)
+        c._nested = (not global_repo) and c.branch(z3.Bool('nested_load_without_parameters'))
+        if c._nested:
+            busy = []
+
+            def id_proc(value):
+                if not busy:
+                    busy.append(1)
+                    try:
+                        mm.model_from_str('item nested')
+                    finally:
+                        busy.pop()
+                return value
+            mm.register_obj_processors({'ID': id_proc})
         kw = {}
         for g, v in zip(G[:ng], VALS):
             kw[g] = v
@@ -233,10 +250,10 @@ def describe(c, D, G, nd, ng):
         v = str(m.eval(k.t, model_completion=True))
         return names.setdefault(v, 'p%d' % len(names))
     return {'declared': [name(d) for d in D[:nd]], 'given': [name(g) for g in G[:ng]],
-            'project_root': bool(getattr(c, '_project_root', False))}
+            'project_root': bool(getattr(c, '_project_root', False)), 'nested': bool(getattr(c, '_nested', False))}
 
 
-def replay_concrete(pi, ki, global_repo, declared, given, project_root=False):
+def replay_concrete(pi, ki, global_repo, declared, given, project_root=False, nested=False):
     """the same scenario with ordinary strings"""
     from textx import metamodel_from_str
     from textx.exceptions import TextXError
@@ -265,6 +282,18 @@ def replay_concrete(pi, ki, global_repo, declared, given, project_root=False):
                                                                       glob_args={'recursive': True})})
         for d in declared:
             mm.model_param_defs.add(d, 'declared')
+        if nested:
+            busy = []
+
+            def id_proc(value):
+                if not busy:
+                    busy.append(1)
+                    try:
+                        mm.model_from_str('item nested')
+                    finally:
+                        busy.pop()
+                return value
+            mm.register_obj_processors({'ID': id_proc})
         kw = {g: v for g, v in zip(given, [0, ('v', 1), ''])}
         should_accept = all(g in declared for g in kw)
         if project_root:
@@ -372,13 +401,15 @@ def main():
                                                                           r['accepted'], r['rejected']))
         for what, naming in r['bad'][:1]:
             naming = naming or {'declared': [], 'given': []}
-            bad, detail = replay_concrete(it[0], it[1], it[2], naming['declared'], naming['given'], naming.get('project_root', False))
+            bad, detail = replay_concrete(it[0], it[1], it[2], naming['declared'], naming['given'], naming.get('project_root', False),
+                                         naming.get('nested', False))
             chk.cov['traces_validated_against_impl'] += 1
             if bad:
                 chk.violation('%s, %s load, global repository %s, declared %s, given %s: %s (replay: %s)' % (
                     r['provider'], r['kind'], r['global_repo'], naming['declared'], naming['given'], what, detail),
                     {'provider': it[0], 'kind': it[1], 'global_repo': it[2], 'declared': naming['declared'],
-                     'given': naming['given'], 'project_root': naming.get('project_root', False)})
+                     'given': naming['given'], 'project_root': naming.get('project_root', False),
+                     'nested': naming.get('nested', False)})
             else:
                 chk.harness_error('symbolic run reports %r but the concrete replay does not reproduce it (%s)'
                                   % (what, detail))
@@ -400,4 +431,4 @@ def replay(data):
         pr = special_names_scenario()
         return bool(pr), pr[:3]
     return replay_concrete(data['provider'], data['kind'], data['global_repo'], data['declared'], data['given'],
-                           data.get('project_root', False))
+                           data.get('project_root', False), data.get('nested', False))
